@@ -30,9 +30,9 @@ def main():
     meta = json.load(open(os.path.join(a.src, "meta.json")))
     patch = os.path.abspath(os.path.join(a.src, "patch.diff"))
     demo = os.path.join(a.src, "demo_test.go")
-    props = (a.props.split(",") if a.props else [meta["property"]])
+    props = (a.props.split(",") if a.props else meta.get("check_props") or [meta["property"]])
     out = dict(meta)
-    for k in ("checks_run", "detected_by", "tier"):
+    for k in ("checks_run", "detected_by", "tier") if True else ():
         out.pop(k, None)
     if not a.skip_confirm:
         wt = "/tmp/sc-%s-%d" % (a.name, os.getpid())
